@@ -135,6 +135,45 @@ pub fn run_case(tape: &mut Tape, _tier: Tier, _p: &CaseParams) -> CaseOutcome {
     }
     world.roots.push(to);
   }
+  // a Wasm module imported at source phase (an asset load) and, through an
+  // alias that answers with it as final specifier, as a module: the module
+  // has to win whatever arrives first
+  let mut wasm_both_ways: Option<String> = None;
+  if tape.draw(Stream::World, 8) == 7 {
+    let importer = world
+      .roots
+      .first()
+      .and_then(|r| world.descs.get(r))
+      .filter(|d| {
+        d.lang.is_script() && !d.lang.is_declaration() && d.url.starts_with("http")
+      })
+      .cloned();
+    if let Some(mut imp) = importer {
+      let y = format!("{}both_ways.wasm", H_A);
+      let x = format!("{}both_ways_alias", H_A);
+      world.add_desc(ModuleDesc::new(y.clone(), Lang::Wasm));
+      if let Some(Entry::Module { bytes, headers, .. }) = world.remote.get(&y).cloned() {
+        world.remote.insert(
+          x.clone(),
+          Entry::Module {
+            bytes,
+            headers,
+            final_url: Some(y.clone()),
+          },
+        );
+        if tape.draw(Stream::World, 3) != 0 {
+          imp.items.insert(0, Item::new(Form::Source, y.clone()));
+          imp.items.push(Item::new(Form::SideEffect, x));
+        } else {
+          imp.items.insert(0, Item::new(Form::SideEffect, x));
+          imp.items.push(Item::new(Form::Source, y.clone()));
+        }
+        world.add_desc(imp);
+        refresh_aliases(&mut world);
+        wasm_both_ways = Some(y);
+      }
+    }
+  }
   let mut sem = SemOpts::draw(tape);
   sem.with_locker = false;
   sem.max_redirects = 10;
@@ -554,6 +593,32 @@ pub fn run_case(tape: &mut Tape, _tier: Tier, _p: &CaseParams) -> CaseOutcome {
           ctx(json!({"root": r, "target": cur})),
         );
         return out;
+      }
+    }
+    // C3: a Wasm module that is also imported as a module (here through an
+    // alias) is a module entry, not the placeholder of its source-phase load
+    if let Some(y) = &wasm_both_ways {
+      let importer_loaded = world
+        .roots
+        .first()
+        .is_some_and(|r| matches!(shape.slots.get(r), Some(SlotShape::Module(_))));
+      if importer_loaded && sem.kind != 2 {
+        out.count("probe.wasm_source_phase_and_module", 1);
+        let ok = matches!(shape.slots.get(y), Some(SlotShape::Module(m)) if m.kind == "wasm");
+        if !ok {
+          out.violation(
+            "C01",
+            "nothing-reachable-is-absent",
+            "wasm-module-left-as-asset-placeholder",
+            format!(
+              "{} is imported at source phase and, through an alias, as a module; its entry is {:?}",
+              y,
+              shape.slots.get(y)
+            ),
+            ctx(json!({"module": y})),
+          );
+          return out;
+        }
       }
     }
     // C2: a script module that every importer imports plainly is never an
